@@ -376,6 +376,9 @@ func (c *codegen) sigBinders(sig *fnSig, ts []gtype, at ast.Node) string {
 		}
 	}
 	s += c.opaqueDecls(sig, at)
+	for _, o := range sig.sps { // code_opq.go
+		s += c.spDecl(o, at)
+	}
 	for _, m := range sig.imeths {
 		s += c.imethDecl(m, at)
 	}
@@ -389,6 +392,10 @@ func (c *codegen) sigArgs(sig *fnSig, at ast.Node) []string {
 	for _, o := range sig.opaques {
 		c.needOpaque(o, at)
 		parts = append(parts, o.name)
+	}
+	for _, o := range sig.sps { // code_opq.go
+		c.needSP(o, at)
+		parts = append(parts, o.param())
 	}
 	for _, m := range sig.imeths {
 		c.needIMeth(m, at)
